@@ -920,7 +920,36 @@ func (p *planner) workflow() command.Command {
 	}
 }
 
+// reupsert re-proposes what the state already holds: an active task with its assignment (or a staged
+// replica-move task) exactly as stored, without a fence or fenced to the current revision. It must be
+// a no-op on every replica, whether it kept its state in memory or rebuilt it from the state file.
+func (p *planner) reupsert() (command.Command, bool) {
+	r, st := p.r, p.cur()
+	if len(st.Tasks) == 0 {
+		return command.Command{}, false
+	}
+	t := st.Tasks[r.IntN(len(st.Tasks))]
+	var exp *uint64
+	if vh.Chance(r, 0.5) {
+		rev := st.Revision
+		exp = &rev
+	}
+	if t.Kind == state.TaskKindSlotReplicaMove {
+		return command.Command{Kind: command.KindUpsertSlotReplicaMoveTask, ExpectedRevision: exp, Task: &t}, true
+	}
+	a := assignmentFor(st, t.SlotID)
+	if a == nil {
+		return command.Command{}, false
+	}
+	return command.Command{Kind: command.KindUpsertSlotAssignmentAndTask, ExpectedRevision: exp, Assignment: a, Task: &t}, true
+}
+
 func (p *planner) any() command.Command {
+	if vh.Chance(p.r, 0.10) {
+		if c, ok := p.reupsert(); ok {
+			return c
+		}
+	}
 	if p.lastHealth != nil && vh.Chance(p.r, 0.08) {
 		h := *p.lastHealth
 		h.AppliedRaftIndex = uint64(p.r.IntN(3))
@@ -1076,5 +1105,14 @@ func gen(r *rand.Rand, tier string, i int) input {
 	}
 	in.Scens = append(in.Scens, randomSteps(r, m, true, false))
 	in.Scens = append(in.Scens, randomSteps(r, m, true, true))
+	// a replica that is rebuilt from its state file after every single entry: compared, like every
+	// scenario, with the reference replica that never restarts
+	if m <= 40 {
+		var every []step
+		for k := 0; k < m; k++ {
+			every = append(every, step{N: 1}, step{N: 0})
+		}
+		in.Scens = append(in.Scens, every)
+	}
 	return in
 }
